@@ -4,7 +4,7 @@ import json, os, sys
 
 ROOT = os.path.dirname(os.path.dirname(os.path.abspath(__file__)))
 sys.path.insert(0, ROOT)
-from tools.manifest_table import CHECKS, NOT_APPLICABLE  # noqa
+from tools.manifest_table import CHECKS, NOT_APPLICABLE, THOROUGH_VALIDATED  # noqa
 
 props = [json.loads(l) for l in open(os.path.join(ROOT, "properties.jsonl"))]
 ids = [p["id"] for p in props]
@@ -17,7 +17,7 @@ for pid in ids:
         {
             "property_id": pid,
             "quick_cmd": f"./check {pid} --tier quick",
-            "thorough_cmd": f"./check {pid} --tier thorough",
+            **({"thorough_cmd": f"./check {pid} --tier thorough"} if pid in THOROUGH_VALIDATED else {}),
             "evidence_file": f"evidence/{pid}.json",
             "replay_cmd_template": f"./check {pid} --replay {{path}}",
             "engine": "exoverif",
